@@ -740,6 +740,49 @@ fn sweep_case<M: MF>(sw: &Sweep<M>, ia: usize, ib: usize) -> Case<M> {
 // entry point
 // ---------------------------------------------------------------------------------------------
 
+/// Aliasing and state: the same object on both sides of an operator, and one live polynomial put through a sequence of
+/// queries (derivative, derivative_n, eval, degree) interleaved with in-place edits (index write, coeffs().push/pop,
+/// trim, clone-and-continue), compared with a plain coefficient list after every step.
+fn alias_and_history(st: &mut Stats, rng: &mut Rng) {
+    st.next_case();
+    fn norm(mut c: Vec<Rat>) -> Vec<Rat> { while c.last().map_or(false, |x| x.is_zero()) { c.pop(); } c }
+    fn coeffs_of(p: &Polynomial<Rat>) -> Vec<Rat> { (0..p.size()).map(|i| p[i]).collect() }
+    fn deriv(c: &[Rat]) -> Vec<Rat> { (1..c.len()).map(|k| c[k] * Rat::int(k as i64)).collect() }
+    let gen = |rng: &mut Rng, n: usize| -> Vec<Rat> { (0..n).map(|_| if rng.chance(0.2) { Rat::ZERO } else { Rat::int(rng.int(-6, 6)) }).collect() };
+    // aliasing: &p op &p
+    let n = rng.usize(0, 7);
+    let c = gen(rng, n);
+    let p = Polynomial::new(c.clone());
+    let mut conv = vec![Rat::ZERO; if n == 0 { 0 } else { 2 * n - 1 }];
+    for i in 0..n { for j in 0..n { conv[i + j] = conv[i + j] + c[i] * c[j]; } }
+    let dbl: Vec<Rat> = c.iter().map(|x| *x + *x).collect();
+    for (name, out, want) in [("mul(&p,&p)", catch(|| coeffs_of(&(&p * &p))), conv), ("add(&p,&p)", catch(|| coeffs_of(&(&p + &p))), dbl), ("sub(&p,&p)", catch(|| coeffs_of(&(&p - &p))), vec![])] {
+        st.eval();
+        match out { Outcome::Ok(g) => if norm(g.clone()) != norm(want.clone()) { st.violation(&format!("C11:alias:{}:Rat:wrong-value", name), format!("p={:?}: {} = {:?} expected {:?}", c, name, g, want)); }, Outcome::Overflow => {}, o => st.violation(&format!("C11:alias:{}:Rat:refused", name), format!("p={:?}: {}", c, o.describe())) }
+    }
+    // history on one live object
+    let n = rng.usize(1, 6);
+    let mut m = gen(rng, n);
+    let mut q = Polynomial::new(m.clone());
+    let mut log: Vec<String> = vec![format!("start {:?}", m)];
+    for _ in 0..rng.usize(3, 12) {
+        let op = rng.below(9);
+        let v = Rat::int(rng.int(-6, 6));
+        match op {
+            0 | 1 | 2 => { if m.is_empty() { continue; } log.push("derivative()".into()); st.eval(); match catch(|| coeffs_of(&q.derivative())) { Outcome::Ok(g) => if norm(g.clone()) != norm(deriv(&m)) { st.violation("C11:history:derivative:Rat:stale-or-wrong", format!("derivative = {:?} expected {:?} after {:?}", g, deriv(&m), log)); return; }, Outcome::Overflow => return, o => { st.violation("C11:history:derivative:Rat:refused", format!("{} after {:?}", o.describe(), log)); return; } } }
+            3 => { if m.is_empty() { continue; } let k = rng.usize(0, 3); log.push(format!("derivative_n({})", k)); let mut w = m.clone(); for _ in 0..k { w = deriv(&w); } if w.is_empty() && k > 0 && m.len() <= k { continue; } st.eval(); match catch(|| coeffs_of(&q.derivative_n(k))) { Outcome::Ok(g) => if norm(g.clone()) != norm(w.clone()) { st.violation("C11:history:derivative_n:Rat:stale-or-wrong", format!("derivative_n({}) = {:?} expected {:?} after {:?}", k, g, w, log)); return; }, Outcome::Overflow => return, _ => {} } }
+            4 => { if m.is_empty() { continue; } let x = Rat::int(rng.int(-3, 3)); log.push(format!("eval({:?})", x)); let mut val = Rat::ZERO; for k in (0..m.len()).rev() { val = val * x + m[k]; } st.eval(); match catch(|| q.eval(x)) { Outcome::Ok(g) => if g != val { st.violation("C11:history:eval:Rat:stale-or-wrong", format!("eval = {:?} expected {:?} after {:?}", g, val, log)); return; }, Outcome::Overflow => return, o => { st.violation("C11:history:eval:Rat:refused", format!("{} after {:?}", o.describe(), log)); return; } } }
+            5 => { if m.is_empty() { continue; } let i = rng.usize(0, m.len() - 1); log.push(format!("p[{}] = {:?}", i, v)); m[i] = v; if !catch(|| q[i] = v).is_ok() { st.violation("C11:history:index_mut:Rat:refused", format!("after {:?}", log)); return; } }
+            6 => { log.push(format!("coeffs().push({:?})", v)); m.push(v); q.coeffs().push(v); }
+            7 => { if m.len() < 2 { continue; } log.push("coeffs().pop()".into()); m.pop(); q.coeffs().pop(); }
+            _ => { log.push("clone-and-continue".into()); let c2 = q.clone(); q = c2; }
+        }
+        st.eval();
+        if coeffs_of(&q) != m { st.violation("C11:history:coefficients:Rat:differ-from-model", format!("coefficients {:?} model {:?} after {:?}", coeffs_of(&q), m, log)); return; }
+    }
+    st.count("alias-and-history-cases");
+}
+
 pub fn run(ctx: &Ctx) -> Report {
     // exhaustive sweeps (seed independent): every ordered pair of coefficient lists over a small alphabet
     let mut real_sweeps = vec![sweep_real("sweep{-1,0,1}len<=4", -1, 1, 4)];
@@ -790,6 +833,7 @@ pub fn run(ctx: &Ctx) -> Report {
                 let (cs, cl) = gen_case::<CRat>(rng, la, lb, true);
                 judge::<Cmplx>(st, cl, &cs);
                 judge::<CRat>(st, cl, &cs);
+                alias_and_history(st, rng);
             }
         }
     });
